@@ -166,6 +166,17 @@ def e_long(c):
     np.random.seed(c["hseed"] % 2 ** 32)
     h2 = lib(PPM.HDD, container(noisy.tolist(), c["form"]), M)
     check(h1.data.tolist() == h2.data.tolist(), "hdd-container-dependent", f"form={c['form']}")
+    # boundary symbols for this order: every slot ON, no slot ON, all but one ON, first+last ON
+    sp = np.zeros((5, M), dtype=np.uint8)
+    sp[0, :] = 1
+    sp[2, :] = 1
+    sp[2, int(rs.randint(0, M))] = 0
+    sp[3, [0, M - 1]] = 1
+    sp[4, int(rs.randint(0, M))] = 1
+    sp = sp[rs.permutation(5)].reshape(-1)
+    np.random.seed(c["hseed"] % 2 ** 32)
+    hs = lib(PPM.HDD, container(sp.tolist(), c["form"]), M)
+    check_hdd(sp, hs, M, f"HDD on boundary symbols (all ON / none ON / M-1 ON / ends ON), M={M}")
     g.verify()
     g.release()
     return {"nontrivial": ns >= 2 and len(set(bits)) > 1, "classes": [c["form"], f"M{M}", "long" if c["n"] > 64 else "short"]}
